@@ -30,6 +30,33 @@ CONFIGS = {
 CRATES = ["konst", "konst_kernel", "konst_proc_macros"]
 
 
+
+class _Done:
+    def __init__(self, rc, out, err):
+        self.returncode, self.stdout, self.stderr = rc, out, err
+
+
+def _run(cmd, timeout, stderr_to_stdout=True, **kw):
+    """subprocess.run with a wall-clock limit: a compiler (or a proc macro running inside it) that does not finish is killed with its
+    whole process group and reported as a failed compilation (rc 124) - a check never hangs and never leaves strays behind"""
+    import signal
+    p = subprocess.Popen(cmd, stdout=subprocess.PIPE, stderr=subprocess.STDOUT if stderr_to_stdout else subprocess.PIPE, text=True,
+                         start_new_session=True, **kw)
+    try:
+        out, err = p.communicate(timeout=timeout)
+        return _Done(p.returncode, out, err)
+    except subprocess.TimeoutExpired:
+        try:
+            os.killpg(p.pid, signal.SIGKILL)
+        except OSError:
+            pass
+        try:
+            out, err = p.communicate(timeout=10)
+        except Exception:
+            out, err = "", ""
+        msg = "error: timed out after %d s: %s\n" % (timeout, " ".join(cmd[:4]))
+        return _Done(124, (out or "") + msg, (err or "") + msg if not stderr_to_stdout else None)
+
 def _nightly_sysroot():
     return subprocess.check_output(["rustc", "+nightly", "--print", "sysroot"], text=True).strip()
 
@@ -150,7 +177,7 @@ def build(config, th=None):
         cmd = ["cargo", "+nightly", "check", "--offline", "-p", "konst", "-p", "konst_kernel",
                "-p", "konst_proc_macros"] + CONFIGS[config]
         t0 = time.time()
-        r = subprocess.run(cmd, cwd=REPO, env=env, stdout=subprocess.PIPE, stderr=subprocess.STDOUT, text=True)
+        r = _run(cmd, 2400, cwd=REPO, env=env)
         if r.returncode != 0:
             with open(os.path.join(d, "build.log"), "w") as fh:
                 fh.write(r.stdout)
@@ -226,7 +253,7 @@ def witness_facts(name, source, config="FULL", th=None, hir=False, extra_args=()
            "--emit=metadata", "-o", os.path.join(wd, "lib%s.rmeta" % name),
            "-Zmir-opt-level=0", "-Awarnings", "-Cdebug-assertions=off",
            "-L", "dependency=" + deps, "--extern", "konst=" + rm] + list(extra_args)
-    r = subprocess.run(cmd, env=env, stdout=subprocess.PIPE, stderr=subprocess.STDOUT, text=True)
+    r = _run(cmd, 900, env=env)
     fs = glob.glob(os.path.join(wd, name + "-*.json"))
     facts = None
     fname = None
@@ -267,8 +294,7 @@ def stable_rmeta(th=None):
                 env = base_env()
                 env["CARGO_TARGET_DIR"] = os.path.join(d, "target")
                 env["RUSTFLAGS"] = "-Awarnings"
-                r = subprocess.run(["cargo", "check", "--offline", "-p", "konst", "--features", "rust_latest_stable alloc"],
-                                   cwd=REPO, env=env, stdout=subprocess.PIPE, stderr=subprocess.STDOUT, text=True)
+                r = _run(["cargo", "check", "--offline", "-p", "konst", "--features", "rust_latest_stable alloc"], 2400, cwd=REPO, env=env)
                 if r.returncode != 0:
                     raise BuildError("STABLE", r.stdout)
                 with open(done, "w") as fh:
@@ -307,7 +333,7 @@ def compile_program(name, source, th=None):
     cmd = ["rustc", "--edition", "2021", "--crate-name", "prog", "--crate-type", "lib", "--emit=metadata",
            "-o", os.path.join(wd, key + ".rmeta"), "--error-format=json", "-Awarnings",
            "-L", "dependency=" + deps, "--extern", "konst=" + rm, src]
-    r = subprocess.run(cmd, env=env, stdout=subprocess.PIPE, stderr=subprocess.PIPE, text=True)
+    r = _run(cmd, 600, stderr_to_stdout=False, env=env)
     errors = []
     for line in r.stderr.splitlines():
         if not line.startswith("{"):
@@ -327,6 +353,8 @@ def compile_program(name, source, th=None):
         for ch in d.get("children", []):
             labels.append(ch.get("message", ""))
         errors.append({"code": (d.get("code") or {}).get("code"), "message": d["message"], "macros": macros, "labels": labels})
+    if r.returncode == 124:
+        errors.append({"code": None, "message": "the compiler did not finish within the time limit", "macros": [], "labels": []})
     res = {"ok": r.returncode == 0, "errors": errors}
     with open(cache, "w") as fh:
         json.dump(res, fh)
